@@ -1,6 +1,7 @@
 import DspVerif.Props.C06
 import DspVerif.Props.C07Gen
 import DspVerif.Gen.StepsDelay
+import DspVerif.Gen.CtorDelay
 import DspVerif.Lib.RealFn
 import DspVerif.Lib.GenBridge
 /-!
@@ -243,5 +244,48 @@ example (h : Array ℝ) (hh : h.size = 51) :
   simp [Hilbert.init, Fir.firInitR, Fir.init, hh]
 
 end
+
+/-! BEGIN steps3 constructors -/
+/-! ## Constructors (regenerated: `Gen/CtorDelay.lean`, `Gen/CtorFir.lean`): the states the framing theorems start from -/
+
+noncomputable section
+
+/-- `Delay<real_t>(int length)`, `length ≥ 0`: the zero-filled buffer of `length` cells (`Model/Framing` keeps a delay as its buffer) -/
+theorem delayRCtorLen_buf (n : ℕ) : (Gen.delayRCtorLen (n : Int) : Gen.DelayRState ℝ).buffer = Array.replicate n 0 := by
+  simp [Gen.delayRCtorLen, Gen.arrNew, Gen.zeroR]
+
+/-- `Delay<real_t>(const arr_real& initial)`: the given contents -/
+theorem delayRCtorInit_buf (a : Array ℝ) : (Gen.delayRCtorInit a : Gen.DelayRState ℝ).buffer = a := rfl
+
+theorem delayCCtorLen_buf (n : ℕ) : (Gen.delayCCtorLen (n : Int) : Gen.DelayCState ℝ).buffer = Array.replicate n 0 := by
+  simp [Gen.delayCCtorLen, Gen.arrNew, C07Gen.gzeroC_eq]
+
+theorem delayCCtorInit_buf (a : Array (Cx ℝ)) : (Gen.delayCCtorInit a : Gen.DelayCState ℝ).buffer = a := rfl
+
+/-- **bridge, `HilbertFilter(const arr_real& h)`, whatever `firtype` is:** an accepted tap vector leaves the model's `Hilbert.init h` -/
+theorem hilbertCtorTaps_ok (firtype : Array ℝ → Int) (h : Array ℝ) (o : Gen.HilbertFilterState ℝ)
+    (ho : Gen.hilbertCtorTaps firtype h = .ok o) : o = toGenH (Hilbert.init h) := by
+  unfold Gen.hilbertCtorTaps at ho
+  split_ifs at ho
+  injection ho with ho
+  rw [← ho]
+  have hd : (Int.tdiv (h.size : Int) 2) = ((h.size / 2 : ℕ) : Int) := by
+    rw [Int.tdiv_eq_ediv_of_nonneg (by omega)]; simp
+  simp only [toGenH, Hilbert.init, C07Gen.firRCtor_eq, C07Gen.toGenR, Gen.arrSize, Int.ofNat_eq_natCast, hd, Gen.delayRCtorLen,
+    Gen.arrNew, Int.toNat_natCast]
+  simp [Fir.firInitR, Cx.zeroR_eq, Gen.zeroR]
+
+/-- framing from the GENERATED constructor: for an accepted tap vector with at least 3 taps, two successive generated `process`
+calls on frames `a`, `b` give the same outputs as one call on `a ++ b` -/
+theorem gen_hilbert_split_from_ctor (firtype : Array ℝ → Int) (h : Array ℝ) (hh : 3 ≤ h.size) (o : Gen.HilbertFilterState ℝ)
+    (ho : Gen.hilbertCtorTaps firtype h = .ok o) (a b : Array ℝ) :
+    (Gen.hilbertProcess o a).bind (fun r => (Gen.hilbertProcess r.1 b).map (fun q => (q.1, r.2 ++ q.2))) =
+      Gen.hilbertProcess o (a ++ b) := by
+  rw [hilbertCtorTaps_ok firtype h o ho]
+  exact gen_hilbert_split (Hilbert.init h) a b (by simp [Hilbert.init, Fir.firInitR, Fir.init]; omega)
+    (by simp [Hilbert.init, Fir.firInitR, Fir.init]) (by simp [Hilbert.init]; omega)
+
+end
+/-! END steps3 constructors -/
 
 end Dsp.C06Gen
